@@ -187,7 +187,79 @@ def extract_scheduler(E):
         E.t.append("/-- %s -/\ndef %s : Option (Int × Int) := %s" % (doc, name, "some (%d, %d)" % v if v else "none"))
 
 
-EXTRACTORS = [extract_cost, extract_scheduler]
+API_FILES = ["rqalpha/apis/api_base.py", "rqalpha/apis/api_abstract.py", "rqalpha/apis/api_rqdatac.py",
+             "rqalpha/mod/rqalpha_mod_sys_accounts/api/api_stock.py", "rqalpha/mod/rqalpha_mod_sys_accounts/api/api_future.py"]
+
+
+def _decorator_name(d):
+    f = d.func if isinstance(d, ast.Call) else d
+    parts = []
+    while isinstance(f, ast.Attribute):
+        parts.append(f.attr)
+        f = f.value
+    if isinstance(f, ast.Name):
+        parts.append(f.id)
+    return ".".join(reversed(parts))
+
+
+def extract_api_phases(E):
+    """API x execution-phase table from the `enforce_phase` decorators of every exported API function"""
+    rows = {}
+    for rel in API_FILES:
+        try:
+            tree, src = parse(rel)
+        except Exception:
+            continue
+        for n in tree.body:
+            if not isinstance(n, ast.FunctionDef):
+                continue
+            names = [_decorator_name(d) for d in n.decorator_list]
+            if "export_as_api" not in names:
+                continue
+            phases = None
+            for d in n.decorator_list:
+                if isinstance(d, ast.Call) and _decorator_name(d) == "ExecutionContext.enforce_phase":
+                    phases = [a.attr for a in d.args if isinstance(a, ast.Attribute)]
+            rows[n.name] = phases
+    items = []
+    for name in sorted(rows):
+        ph = rows[name]
+        items.append('  ("%s", %s)' % (name, "none" if ph is None else "some " + lean_strlist(ph)))
+    E.t.append("/-- exported API functions with the phases their `enforce_phase` decorator allows (`none` = no decorator: allowed everywhere) -/\n"
+               "def apiPhaseTable : List (String × Option (List String)) := [\n" + ",\n".join(items) + "]")
+    # Executor.EVENT_SPLIT_MAP
+    tree, src = parse("rqalpha/core/executor.py")
+    cls = find_class(tree, "Executor")
+    split = []
+    for n in ast.walk(cls):
+        if isinstance(n, ast.Assign) and isinstance(n.targets[0], ast.Name) and n.targets[0].id == "EVENT_SPLIT_MAP" and isinstance(n.value, ast.Dict):
+            for k, v in zip(n.value.keys, n.value.values):
+                if isinstance(k, ast.Attribute) and isinstance(v, ast.Tuple):
+                    split.append((k.attr, [e.attr for e in v.elts if isinstance(e, ast.Attribute)]))
+    E.t.append("/-- `Executor.EVENT_SPLIT_MAP` -/\ndef eventSplitMap : List (String × List String) := [\n" +
+               ",\n".join('  ("%s", %s)' % (k, lean_strlist(v)) for k, v in split) + "]")
+    E.fp["Executor"] = fingerprint(cls)
+    # phases of the strategy callbacks (core/strategy.py)
+    tree, src = parse("rqalpha/core/strategy.py")
+    cls = find_class(tree, "Strategy")
+    cb = []
+    for fn in ("init", "before_trading", "open_auction", "handle_bar", "handle_tick", "after_trading", "wrap_user_event_handler"):
+        f = find_func(cls, fn)
+        cb.append((fn, _phase_in(f) if f is not None else None))
+    E.t.append("/-- phase in which `Strategy` runs each user callback -/\ndef callbackPhase : List (String × Option String) := [\n" +
+               ",\n".join('  ("%s", %s)' % (k, 'some "%s"' % v if v else "none") for k, v in cb) + "]")
+    # Order.is_final: statuses that are NOT final
+    tree, src = parse("rqalpha/model/order.py")
+    cls = find_class(tree, "Order")
+    f = find_func(cls, "is_final")
+    nonfinal = None
+    for n in ast.walk(f):
+        if isinstance(n, ast.Compare) and isinstance(n.ops[0], ast.NotIn) and isinstance(n.comparators[0], ast.Set):
+            nonfinal = [e.attr for e in n.comparators[0].elts if isinstance(e, ast.Attribute)]
+    E.t.append("/-- `Order.is_final`: statuses that are not final -/\ndef orderNonFinalStatuses : Option (List String) := %s" % ("some " + lean_strlist(sorted(nonfinal)) if nonfinal else "none"))
+
+
+EXTRACTORS = [extract_cost, extract_scheduler, extract_api_phases]
 
 
 def write_if_changed(path, text):
